@@ -8,11 +8,17 @@
      sign included                                                                : C07_intertwine_partial
    * the full statement (also across sectors) is FALSE for the mirrored export: the sector factor is
      not constant; witness proved                                                  : C07_intertwine_fails
-  Index bijection, round trip and sector detection are decided by the exact correspondence.
+   * index: qubit `2p + spin` of the exported index is set iff that spin orbital is occupied; the index map is
+     injective on strings below 2^norb and stays below 2^(2 norb) (so the export is a permutation of
+     amplitudes with signs — norms and inner products are preserved)              : C07_index_bits, C07_index_injective
+   * linear binary codes: the export index is the XOR of an alpha part and a beta part, and the code whose
+     columns are the unit vectors is the Jordan–Wigner export                      : C07_code_split, C07_code_jw
+  Round trip and sector detection are decided by the exact correspondence.
 -/
 import FqeVerif.Props.C01
 import FqeVerif.Model.Cirq
 import FqeVerif.Lemmas.Bits
+import FqeVerif.Lemmas.CirqIndex
 namespace C07
 open Fock Model C01
 
@@ -91,5 +97,31 @@ theorem C07_intertwine_fails :
 
 example : TermOk 2 [(1, true), (0, false)] := by
   intro f hf; simp at hf; rcases hf with rfl | rfl <;> decide
+
+/-- each determinant sits at the index of its Jordan–Wigner bit pattern: bit `2·norb − 1 − m` of the index
+    (qubit `m`, qubit 0 most significant) is the occupation of mode `m = 2p + spin` -/
+theorem C07_index_bits (norb a b i : Nat) :
+    (cirqIndex norb a b).testBit i =
+      (decide (i < 2 * norb) &&
+        (if (2 * norb - 1 - i) % 2 = 0 then a.testBit ((2 * norb - 1 - i) / 2) else b.testBit ((2 * norb - 1 - i) / 2))) :=
+  testBit_cirqIndex norb a b i
+
+/-- the export places different determinants at different indices inside the `2^(2 norb)` vector: it is an
+    injection of the determinant basis into the qubit basis (with signs), hence an isometry -/
+theorem C07_index_injective (norb a b a' b' : Nat) (ha : a < 2 ^ norb) (hb : b < 2 ^ norb)
+    (ha' : a' < 2 ^ norb) (hb' : b' < 2 ^ norb) :
+    cirqIndex norb a b < 2 ^ (2 * norb) ∧ (cirqIndex norb a b = cirqIndex norb a' b' → a = a' ∧ b = b') :=
+  ⟨cirqIndex_lt norb a b, cirqIndex_injective norb a b a' b' ha hb ha' hb'⟩
+
+/-- linear binary codes: index = (alpha part) XOR (beta part), for every encoder matrix -/
+theorem C07_code_split (norb : Nat) (cols : List Nat) (a b : Nat) :
+    cirqIndexCode norb cols a b = cirqIndexCode norb cols a 0 ^^^ cirqIndexCode norb cols 0 b :=
+  cirqIndexCode_split norb cols a b
+
+/-- the identity code is the Jordan–Wigner export -/
+theorem C07_code_jw (norb a b : Nat) : cirqIndexCode norb (jwCols norb) a b = cirqIndex norb a b :=
+  cirqIndexCode_jw norb a b
+
+example : cirqIndex 2 0b01 0b10 = 0b1001 ∧ cirqIndexCode 2 (jwCols 2) 0b01 0b10 = 0b1001 := by decide
 
 end C07
